@@ -8,6 +8,14 @@ p = props[pid]
 wt = f"/tmp/seed{rnd}_{pid}"
 mech = "; ".join(f"{m['name']} ({m['where']})" for m in p["anchors"].get("mechanism", []))
 count, countset = ("THREE", "{1, 2, 3}") if rnd else ("TWO", "{1, 2}")
+extra = ""
+if rnd == "3":
+    extra = (" In this round look away from the central numerical routine: first list the public entry points named under 'Observed at' with ALL their "
+             "keyword options, the helper layers they pass through (argument normalisation, caching, variant iteration, data extraction and write-back, "
+             "output assembly) and the less-travelled branches inside them, then place each change in a different one of those layers. Good candidates: "
+             "a keyword option whose non-default value takes another branch; objects with several parameter variants or several data variants; state kept "
+             "on an object between two calls; inputs at the edge of what is valid (length one, empty selections, all-missing columns, first or last period "
+             "of a year, negative or zero values where allowed); two public functions that should agree with each other.")
 print(f"""You are helping to evaluate a verification effort for the Python package irispie (a macroeconomic modeling package: model-language parser, algorithmic differentiation, first-order solver, Kalman filter, time series and date algebra). You have your own scratch git worktree of the repository at {wt} (package source under {wt}/src/irispie, tests under {wt}/tests, Python interpreter /venv/bin/python; to import the package from YOUR worktree put `import sys; sys.path.insert(0, "{wt}/src")` at the top of any script, and check `irispie.__file__` starts with {wt}). Work only inside {wt}. Do not touch /repo or /verif and do not read anything under /verif.
 
 Here is a semantic property of irispie that users rely on:
@@ -19,7 +27,7 @@ Code it is anchored in: {', '.join(p['anchors']['files'])}
 Mechanisms involved: {mech}
 Observed at: {', '.join(p['anchors'].get('observe_at', []))}
 
-Your job: produce {count} independent, realistic changes to the irispie source (each a small patch of the kind a maintainer could plausibly commit by mistake - a refactoring slip, an off-by-one, a wrong index/sign/transposition, a stale cache, a dropped special case, two sites that each look fine alone) such that each change BREAKS the property above while the package still imports and the existing test suite still passes. Prefer changes that need something specific to manifest (a particular multi-step sequence of operations, an unusual but valid input, a particular combination of options, a specific date/shape/ordering, two cooperating sites) rather than ones that every ordinary use would expose at once. The changes should be different in kind and in location (different mechanisms, different files where possible, and not all in the most obvious function); at least one should only show under a non-default option, an unusual model/data shape, or a particular sequence of calls.
+Your job: produce {count} independent, realistic changes to the irispie source (each a small patch of the kind a maintainer could plausibly commit by mistake - a refactoring slip, an off-by-one, a wrong index/sign/transposition, a stale cache, a dropped special case, two sites that each look fine alone) such that each change BREAKS the property above while the package still imports and the existing test suite still passes. Prefer changes that need something specific to manifest (a particular multi-step sequence of operations, an unusual but valid input, a particular combination of options, a specific date/shape/ordering, two cooperating sites) rather than ones that every ordinary use would expose at once. The changes should be different in kind and in location (different mechanisms, different files where possible, and not all in the most obvious function); at least one should only show under a non-default option, an unusual model/data shape, or a particular sequence of calls.{extra}
 
 For each change i in {countset} create a directory {wt}/_seeded/{pid}_<short_slug>/ containing:
   * patch.diff  - the change as a unified diff produced by `git -C {wt} diff` (paths relative to the repository root, applies with `git apply` to a clean checkout);
